@@ -109,8 +109,33 @@ FRAGS = ["", ".", "..", "...", "/", "\\", "//", "a", "b", "cfg", "configs2", "%2
 SMALL = [".", "/", "\\", "a", "%"]
 
 
+def _pct(s, which, lower=False):
+    return "".join(("%%%02x" if lower else "%%%02X") % ord(c) if (c in which and ord(c) < 128) else c for c in s)
+
+
+ENCODINGS = [
+    lambda s: _pct(s, "./\\"), lambda s: _pct(s, "./\\", True), lambda s: _pct(s, "."), lambda s: _pct(s, "/\\"),
+    lambda s: _pct(_pct(s, "./"), "%"),                                               # double encoding
+    lambda s: s.replace(".", "\uff0e").replace("/", "\uff0f"),                        # fullwidth (NFKC-equivalent to . and /)
+    lambda s: s.replace(".", "\uff0e"), lambda s: s.replace("/", "\uff0f"),
+    lambda s: s.replace("..", "\u2025"), lambda s: s.replace(".", "\u2024"),          # two dot leader / one dot leader (NFKC -> .. / .)
+    lambda s: s.replace(".", "\ufe52"), lambda s: s.replace("/", "\u2215"), lambda s: s.replace("/", "\u2044"),
+    lambda s: s.replace("/", "\\"), lambda s: s.replace("/", "%c0%af"), lambda s: s.replace(".", "%u002e"),
+    lambda s: s.upper(), lambda s: " " + s, lambda s: s + " ", lambda s: s + "\x00", lambda s: "./" + s, lambda s: s.replace("/", "//"),
+    lambda s: s.replace("../", "....//"), lambda s: s.replace("../", "..;/"), lambda s: s.replace("..", ".\u200b."),
+]
+
+
 def g_id(rng, root):
     r = rng.random()
+    if 0.7 <= r < 0.85 and rng.random() < 0.5:
+        # an escape attempt (into a sibling whose name starts with the root's name, or upwards), written in some encoding
+        base = os.path.basename(os.path.normpath(root)) or "x"
+        t = rng.choice(["../" + base + "2/x", "../" + base + "2", "../" + base + "_private", "..", "../..", "../" * rng.randrange(1, 5) + "etc", "a/../../" + base + "2",
+                        "../" + base, "..\\" + base + "2", "../" + base + "/../" + base + "-staging/x"])
+        for _ in range(rng.choice([1, 1, 1, 2])):
+            t = rng.choice(ENCODINGS)(t)
+        return t
     if r < 0.55:
         return "".join(rng.choice(FRAGS) for _ in range(rng.choice([0, 1, 1, 2, 2, 3, 3, 4, 5])))
     if r < 0.7:
@@ -301,6 +326,11 @@ def g_e2e_case(rng, maxlen=12):
                 return cfg["single"]
             if cfg["default"] and rng.random() < 0.3:
                 return cfg["default"]
+            if rng.random() < 0.1:      # anything the function-level generator writes (encoded escapes, look-alikes, …)
+                for _ in range(5):
+                    x = g_id(rng, root)
+                    if len(x) < 300:
+                        return x
             return rng.choice(E2E_BAD) if rng.random() < 0.15 else rng.choice(E2E_IDS)
 
         if coll and rng.random() < 0.5 and not focus:
@@ -355,6 +385,13 @@ def g_e2e_case(rng, maxlen=12):
             reply = rng.choice([{"role": "assistant", "content": ""}, {"role": "assistant", "content": "hi"}, {"role": "assistant", "content": "ok", "extra": [1]}])
         else:
             reply = {"role": "assistant", "content": f"reply#{t}"}
+        if focus and rng.random() < 0.15 and reqs and "op" not in reqs[-1] and reqs[-1]["body"].get("thread_id") in tids:
+            # the same request on another thread, answered the same way: two threads with identical contents
+            prev = reqs[-1]
+            body = json.loads(json.dumps(prev["body"]))
+            body["thread_id"] = rng.choice([x for x in tids if x != prev["body"]["thread_id"]])
+            reply = prev["reply"]
+            key = "thread-" + body["thread_id"]
         if key and reply is not None and not body.get("stream"):
             approx[key] = approx.get(key, []) + ([{"role": "context", "content": body["context"]}] if body.get("context") else []) + body["messages"] + [reply]
         reqs.append({"body": body, "reply": reply})
